@@ -253,23 +253,40 @@ fn main() {
         let mut bi = vec![];
         let mut zi = vec![];
         let mut n = 0usize;
+        // Why a forced load differs: the order that was forced, or already the pool it ran on (the forced loads take the pools in
+        // turn)?  One more load on the same pool with both vectors in key order tells; it only words the verdict.
+        let blame = |pi: usize, what: &str, q: &[usize], docs: &Vec<String>| -> String {
+            let same_pool = load(&bytes, Some(bid.clone()), Some(zid.clone()), &pools[pi]);
+            if hooks && same_pool != docs[0] {
+                format!(
+                    "a load on a pool of {} threads with the object streams and the zero-length streams forced into key order differs from the sequential document",
+                    POOLS[pi]
+                )
+            } else if q.len() <= 12 {
+                format!("{} in key-order positions {:?} gives another document", what, q)
+            } else {
+                format!("{} in key-order positions {:?}.. ({} positions) gives another document", what, &q[..12], q.len())
+            }
+        };
         for q in orders(brank.len(), 6) {
             let p: Vec<usize> = q.iter().map(|&i| brank[i]).collect();
-            let d = if hooks { load(&bytes, Some(p), Some(zid.clone()), &pools[n % pools.len()]) } else { first.clone() };
+            let pi = n % pools.len();
+            let d = if hooks { load(&bytes, Some(p), Some(zid.clone()), &pools[pi]) } else { first.clone() };
             n += 1;
             let k = classify(d, &mut docs);
             if k != 0 {
-                fail(format!("merging the object streams in key-order positions {:?} gives another document", q));
+                fail(blame(pi, "merging the object streams", &q, &docs));
             }
             bi.push(k);
         }
         for q in orders(zrank.len(), 4) {
             let p: Vec<usize> = q.iter().map(|&i| zrank[i]).collect();
-            let d = if hooks { load(&bytes, Some(bid.clone()), Some(p), &pools[n % pools.len()]) } else { first.clone() };
+            let pi = n % pools.len();
+            let d = if hooks { load(&bytes, Some(bid.clone()), Some(p), &pools[pi]) } else { first.clone() };
             n += 1;
             let k = classify(d, &mut docs);
             if k != 0 {
-                fail(format!("reading the zero-length streams in key-order positions {:?} gives another document", q));
+                fail(blame(pi, "reading the zero-length streams", &q, &docs));
             }
             zi.push(k);
         }
